@@ -38,12 +38,16 @@ theorem constructed_prints_faithfully2 (useHex : Int → Bool) (m : Core2.Mod) (
 
 /-! ## the block builder methods are the free constructors -/
 
-/-- Every `(*ir.Block).NewX` method (the fact is REGENERATED from the source on every run) is the pure delegation
-    `v := NewX(params…); insert v into the block; return v`: the parameters reach the free constructor unchanged and
-    in order, so what C06 and the printing theorems say about the constructors holds for the builder methods too. -/
+/-- Every `(*ir.Block).NewX`, `(*ir.Func).NewBlock` and `(*ir.Module).NewX` method (the fact is REGENERATED from the source on every run)
+    is the pure delegation `v := NewX(params…); [v.Parent = receiver;] insert v into the receiver; return v`: the parameters reach the free
+    constructor unchanged and in order, so what C06 and the printing theorems say about the constructors holds for the builder methods too
+    (Module.NewTypeDef has no free constructor and is not in the table). -/
 theorem block_builders_delegate : Generated.Facts.blockBuilders.all (fun r => r.2) = true := by decide +kernel
 
-theorem block_builders_counted : Generated.Facts.blockBuilders.length ≥ 65 := by decide +kernel
+theorem container_builders_listed : ["Func.NewBlock", "Module.NewAlias", "Module.NewFunc", "Module.NewGlobal", "Module.NewGlobalDef", "Module.NewIFunc"].all
+    (fun n => Generated.Facts.blockBuilders.any (fun r => r.1 == n)) = true := by decide +kernel
+
+theorem block_builders_counted : Generated.Facts.blockBuilders.length ≥ 71 := by decide +kernel
 
 /-! ## call sites denote the callee they were constructed with -/
 
